@@ -14,7 +14,7 @@ package gen
 
 //@ iface Field.Write
 //@   requires metaOK(meta) && external(w)
-//@   modifies meta, HA(meta.rowGroups), heap("sch.ColumnMetaData"), heap("map[string]sch.ColumnChunk"), wfault, snkPos, relArr
+//@   modifies meta, HA(meta.rowGroups), heap("sch.ColumnMetaData"), heap("map[string]sch.ColumnChunk"), wfault, snk, ser, relArr
 //@   ensures metaOK(meta) && meta.rowGroups == old(meta.rowGroups)
 //@   ensures[C09] err == nil ==> (wfault ==> old(wfault))
 //@   ensures[C06] #meta.rowGroups >= 1 && err == nil ==> pageWritten(meta)
@@ -51,7 +51,7 @@ package gen
 //@   requires arg0 != nil
 //@   requires fnid(self) == fnidOf("GEN.begin") ==> external(arg0.w)
 //@   free-requires live(par1)
-//@   modifies arg0, wfault, snkPos
+//@   modifies arg0, wfault, snk
 //@   ensures arg0.w == old(arg0.w)
 //@   ensures fnid(self) != fnidOf("GEN.begin") ==> wfault == old(wfault)
 //@   ensures fnid(self) != fnidOf("GEN.withMeta$1") ==> arg0.meta == old(arg0.meta)
@@ -61,7 +61,7 @@ package gen
 //@   ensures[C06] fnid(self) == fnidOf("GEN.MaxPageSize$1") ==> arg0.max == cloArg(self)
 //@   ensures[C06] fnid(self) != fnidOf("GEN.MaxPageSize$1") ==> arg0.max == old(arg0.max)
 //@   ensures[C06] arg0.len == old(arg0.len) && arg0.child == old(arg0.child)
-//@   ensures[C06] fnid(self) != fnidOf("GEN.begin") ==> snkPos == old(snkPos)
+//@   ensures[C06] fnid(self) != fnidOf("GEN.begin") ==> snkPos == old(snkPos) && snkB == old(snkB)
 
 // C06. The open row group is the last one; it has NumRows 0 until its first
 // page is written. rootOK is the invariant of the writer the user holds.
@@ -74,18 +74,18 @@ package gen
 //@   verify[C13]
 //@   verify[C06]
 //@   requires writerOK(p)
-//@   modifies p, p.meta, HA(p.meta.rowGroups), heap("sch.ColumnMetaData"), heap("map[string]sch.ColumnChunk"), wfault, snkPos, relArr
+//@   modifies p, p.meta, HA(p.meta.rowGroups), heap("sch.ColumnMetaData"), heap("map[string]sch.ColumnChunk"), wfault, snk, ser, relArr
 //@   ensures[C09] err == nil ==> (wfault ==> old(wfault))
 //@   ensures[C06] old(rootOK(p)) && old(p.meta.rowGroupDocs) == 0 ==> err == nil && snkPos == old(snkPos) && groupsSame(p.meta) && p.meta.rowGroupDocs == 0 && p.meta.docs == old(p.meta.docs) && sameheap("sch.ColumnMetaData") && sameheap("map[string]sch.ColumnChunk") && sameheap("[]parquet.RowGroup") && rootOK(p)
 //@   ensures[C06] old(rootOK(p)) && old(p.meta.rowGroupDocs) != 0 && err == nil ==> #p.meta.rowGroups == old(#p.meta.rowGroups) + 1 && p.meta.rowGroups[#p.meta.rowGroups - 2].rowGroup.NumRows == old(p.meta.rowGroupDocs) && (forall k in 0..old(#p.meta.rowGroups) - 1: p.meta.rowGroups[k].rowGroup.NumRows == old(p.meta.rowGroups[k].rowGroup.NumRows)) && p.meta.docs == old(p.meta.docs) && rootOK(p)
 //@   ensures[C06] p.max == old(p.max) && p.meta == old(p.meta) && p.w == old(p.w)
 //@   ensures[C06] old(chainInv(allocbound())) ==> chainInv(allocbound())
 //@ loop (*ParquetWriter).Write#1
-//@   modifies p.meta, HA(p.meta.rowGroups), heap("sch.ColumnMetaData"), heap("map[string]sch.ColumnChunk"), wfault, snkPos, relArr
+//@   modifies p.meta, HA(p.meta.rowGroups), heap("sch.ColumnMetaData"), heap("map[string]sch.ColumnChunk"), wfault, snk, ser, relArr
 //@   invariant metaOK(p.meta) && (wfault ==> old(wfault)) && p.meta.rowGroups == old(p.meta.rowGroups) && 0 <= rangeindex + 1
 //@   invariant[C06] old(#p.meta.rowGroups) >= 1 ==> p.meta.rowGroupDocs == old(p.meta.rowGroupDocs) && p.meta.docs == old(p.meta.docs) && closedSame(p.meta) && (rangeindex + 1 >= 1 ==> lastRows(p.meta) == p.meta.rowGroupDocs)
 //@ loop (*ParquetWriter).Write#2
-//@   modifies p.meta, HA(p.meta.rowGroups), heap("sch.ColumnMetaData"), heap("map[string]sch.ColumnChunk"), wfault, snkPos, relArr
+//@   modifies p.meta, HA(p.meta.rowGroups), heap("sch.ColumnMetaData"), heap("map[string]sch.ColumnChunk"), wfault, snk, ser, relArr
 //@   invariant metaOK(p.meta) && (wfault ==> old(wfault)) && p.meta.rowGroups == old(p.meta.rowGroups) && 0 <= rangeindex$1 + 1
 //@   invariant[C06] old(#p.meta.rowGroups) >= 1 ==> p.meta.rowGroupDocs == old(p.meta.rowGroupDocs) && p.meta.docs == old(p.meta.docs)
 //@   invariant[C06] old(#p.meta.rowGroups) >= 1 ==> closedSame(p.meta)
@@ -101,14 +101,14 @@ package gen
 //@   verify[C06]
 //@   requires writerOK(p)
 //@   free-requires live(par1)
-//@   modifies heap("sch.ColumnMetaData"), heap("sch.SchemaElement"), wfault, snkPos, footRows, footGroups
+//@   modifies heap("sch.ColumnMetaData"), heap("sch.SchemaElement"), wfault, snk, ser
 //@   ensures[C09] err == nil ==> (wfault ==> old(wfault))
 //@   ensures[C06] err == nil ==> footRows == rowsSum(HA(p.meta.rowGroups), off(p.meta.rowGroups), #p.meta.rowGroups) && footGroups == groupsKept(HA(p.meta.rowGroups), off(p.meta.rowGroups), #p.meta.rowGroups)
 
 //@ func begin
 //@   requires p != nil && external(p.w)
 //@   free-requires live(par1)
-//@   modifies wfault, snkPos
+//@   modifies wfault, snk
 //@   ensures[C09] err == nil ==> (wfault ==> old(wfault))
 
 //@ func Fields
@@ -156,7 +156,7 @@ package gen
 //@   verify[C13]
 //@   requires external(w)
 //@   requires forall k in 0..#opts: fnid(opts[k]) != fnidOf("GEN.withMeta$1")
-//@   modifies HA(opts), wfault, snkPos
+//@   modifies HA(opts), wfault, snk
 //@   ensures err == nil ==> writerOK(res0)
 //@   ensures[C09] err == nil ==> (wfault ==> old(wfault))
 //@   ensures[C06] err == nil && res0.max >= 1 ==> rootOK(res0) && #res0.meta.rowGroups == 1 && res0.meta.docs == 0
@@ -179,14 +179,14 @@ package gen
 //@ func newParquetWriter
 //@   allocates GEN.ParquetWriter
 //@   requires external(w) || (forall k in 0..#opts: fnid(opts[k]) != fnidOf("GEN.begin"))
-//@   modifies wfault, snkPos
+//@   modifies wfault, snk
 //@   ensures[C06] err == nil ==> res0.len == 0 && res0.child == nil && #res0.fields >= 1 && res0.meta != nil
 //@   ensures[C06] err == nil && optMeta(opts, #opts) >= 0 && cloArg(opts[optMeta(opts, #opts)]) != 0 ==> res0.meta == cloArg(opts[optMeta(opts, #opts)])
 //@   ensures[C06] err == nil && optMeta(opts, #opts) < 0 ==> #res0.meta.rowGroups == 1 && lastRows(res0.meta) == 0 && res0.meta.rowGroupDocs == 0 && res0.meta.docs == 0
 //@   ensures[C06] err == nil && (forall k in 0..#opts: fnid(opts[k]) != fnidOf("GEN.withMeta$1")) ==> #res0.meta.rowGroups == 1 && lastRows(res0.meta) == 0 && res0.meta.rowGroupDocs == 0 && res0.meta.docs == 0
 //@   ensures[C06] err == nil && optMax(opts, #opts) >= 0 ==> res0.max == cloArg(opts[optMax(opts, #opts)])
 //@   ensures[C06] err == nil && optMax(opts, #opts) < 0 ==> res0.max == 1000
-//@   ensures[C06] (forall k in 0..#opts: fnid(opts[k]) != fnidOf("GEN.begin")) ==> snkPos == old(snkPos)
+//@   ensures[C06] (forall k in 0..#opts: fnid(opts[k]) != fnidOf("GEN.begin")) ==> snkPos == old(snkPos) && snkB == old(snkB)
 //@   ensures[C06] old(chainInv(allocbound())) ==> chainInv(allocbound())
 //@   ensures err == nil ==> res0 != nil && freshsince(res0) && res0.w == w
 //@   ensures (forall k in 0..#opts: fnid(opts[k]) != fnidOf("GEN.withMeta$1")) && err == nil ==> metaOK(res0.meta) && freshsince(res0.meta)
@@ -194,11 +194,11 @@ package gen
 //@   ensures (forall k in 0..#opts: pageOpt(opts[k])) ==> err == nil
 //@   ensures[C09] err == nil ==> (wfault ==> old(wfault))
 //@ loop newParquetWriter#1
-//@   modifies p, wfault, snkPos
+//@   modifies p, wfault, snk
 //@   invariant p.w == w && (wfault ==> old(wfault)) && 0 <= rangeindex + 1 && rangeindex + 1 <= #opts
 //@   invariant (forall k in 0..rangeindex+1: fnid(opts[k]) != fnidOf("GEN.withMeta$1")) ==> p.meta == nil
 //@   invariant (forall k in 0..rangeindex+1: fnid(opts[k]) != fnidOf("GEN.begin")) ==> wfault == old(wfault)
-//@   invariant[C06] (forall k in 0..rangeindex+1: fnid(opts[k]) != fnidOf("GEN.begin")) ==> snkPos == old(snkPos)
+//@   invariant[C06] (forall k in 0..rangeindex+1: fnid(opts[k]) != fnidOf("GEN.begin")) ==> snkPos == old(snkPos) && snkB == old(snkB)
 //@   invariant[C06] p.len == 0 && p.child == nil && freshsince(p) && onlyNew(p)
 //@   invariant[C06] optMeta(opts, rangeindex + 1) >= 0 ==> p.meta == cloArg(opts[optMeta(opts, rangeindex + 1)])
 //@   invariant[C06] optMeta(opts, rangeindex + 1) < 0 ==> p.meta == nil
